@@ -239,7 +239,7 @@ class Ctx:
                 continue
             seen.append(f)
             src = open(os.path.join(COQ, f)).read()
-            for m in re.finditer(r'From\s+EmdV\s+Require\s+(?:Import|Export)?\s*([^.]*(?:\.[A-Za-z_][^.\s]*)*)\.', src):
+            for m in re.finditer(r'From\s+EmdV\s+Require\s+(?:Import\s+|Export\s+)?([\w.\s]+?)\.(?=\s|$)', src):
                 for mod in m.group(1).split():
                     todo.append(mod.replace('.', '/') + '.v')
         return seen
@@ -287,7 +287,7 @@ class Ctx:
             self.problem('proof-break', 'coqc', 'proof obligation no longer checks: ' + (r.stdout + r.stderr)[-1500:],
                          theorem=where)
             return False
-        out_vo = os.path.join(self.work, 'prop_check.vo')
+        out_vo = os.path.join(self.work, os.path.basename(prop_file) + 'o')
         cmd = 'exec coqc -q -Q %s EmdV %s -o %s' % (COQ, os.path.join(COQ, prop_file), out_vo)
         r = subprocess.run(['bash', '-c', cmd], capture_output=True, text=True, timeout=900)
         if r.returncode != 0:
